@@ -32,14 +32,14 @@ CLAIMED["C11"] = dict(
 CLAIMED["C01"] = dict(
     category="exploration",
     technique="bounded-exhaustive lattice enumeration (model zoo x state lattice x every derivative key x every contribution); Richardson finite-difference oracle on neighbouring real states",
-    text="For every lattice state of every zoo model, every first/second/third-order derivative key (mixed keys in both orders) of every Helmholtz-energy contribution is compared with a Richardson difference of the next-lower-order quantity at neighbouring states, every State getter with the documented sign/key mapping of the analytic total, and the caloric getters with differences between neighbouring constructed states (new_npt/new_nts/new_nph). A dropped dual part, wrong chain-rule factor or wrong key mapping produces an O(1) relative error on every state that reaches the code, five orders above the acceptance band.",
+    text="For every lattice state of every zoo model, every first/second/third-order derivative key (mixed keys in both orders) of every Helmholtz-energy contribution is compared with a Richardson difference of the next-lower-order quantity at neighbouring states, every State getter with the documented sign/key mapping of the analytic total, and the caloric getters with differences between neighbouring constructed states (new_npt/new_nts/new_nph). A dropped dual part, wrong chain-rule factor or wrong key mapping produces an O(1) relative error on every state that reaches the code, five orders above the acceptance band. Every ePC-SAFT entry is also evaluated exactly at the first and last tabulated permittivity temperature; synthetic association schemes (2B + one C site, pure C site, 3B + 2B) are part of the zoo; caloric neighbours are only accepted on the branch of the base state.",
     design_ref="§5 C01, §3.3",
 )
 
 CLAIMED["C08"] = dict(
     category="exploration",
     technique="bounded-exhaustive lattice enumeration of every implementation pair x state lattice x derivative keys; differential oracle",
-    text="Every pair of code paths named in the property (functional-as-bulk vs equation of state for every FMT version, enum/ideal-gas wrappers vs bare model, ePC-SAFT without ions vs PC-SAFT, SAFT-VRQ Mie FH0 vs SAFT-VR Mie, closed-form vs iterative association on every dual part, from_segments vs combined record, Peng-Robinson vs the SI closed form) is evaluated on the whole state lattice for A, p, s, mu and all second-order keys and compared pairwise.",
+    text="Every pair of code paths named in the property (functional-as-bulk vs equation of state for every FMT version, enum/ideal-gas wrappers vs bare model, ePC-SAFT without ions vs PC-SAFT, SAFT-VRQ Mie FH0 vs SAFT-VR Mie, closed-form vs iterative association on every dual part, from_segments vs combined record, Peng-Robinson vs the SI closed form) is evaluated on the whole state lattice for A, p, s, mu and all second-order keys and compared pairwise. Added pairs: six synthetic association schemes with unequal site counts or C sites (pure and with hexane), gc-PC-SAFT with the rehner2023 binary segment records; one C site = half of one A + one B site for PC-SAFT and SAFT-VR Mie.",
     design_ref="§5 C08",
 )
 
@@ -60,14 +60,14 @@ CLAIMED["C10"] = dict(
 CLAIMED["C13"] = dict(
     category="exploration",
     technique="bounded-exhaustive lattice enumeration (non-electrolyte zoo x T x composition x {B, C, B', C'}); oracle: extrapolated zero-density limit of (Z-1)/rho from real finite-density states",
-    text="For every non-electrolyte zoo model, temperature and composition of the lattice all four virial quantities are compared with the zero-density limit of (Z-1)/rho and of its density derivative, obtained by quadratic extrapolation from real states on a density ladder that is lowered until the extrapolation converges, and with Richardson temperature differences of the coefficients themselves. Models whose coefficients are wrong or NaN on the pinned tree are listed per (model, coefficient) in known_findings.txt, so a further model going wrong is reported.",
+    text="For every non-electrolyte zoo model, temperature and composition of the lattice all four virial quantities are compared with the zero-density limit of (Z-1)/rho and of its density derivative, obtained by quadratic extrapolation from real states on a density ladder that is lowered until the extrapolation converges, and with Richardson temperature differences of the coefficients themselves. Models whose coefficients are wrong or NaN on the pinned tree are listed per (model, coefficient) in known_findings.txt, so a further model going wrong is reported. All four coefficients are also required to be independent of the amount of substance handed in (1 mol, 2.5 mol, 1e-3 mol, None).",
     design_ref="§5 C13",
 )
 
 CLAIMED["C15"] = dict(
     category="exploration",
     technique="exhaustive enumeration of a finite set: every record of every shipped parameter file",
-    text="The quantifier is a finite set and both tiers enumerate it completely: every JSON file is parsed with its model's record type and checked structurally (duplicate names / pairs, positivity, referential integrity, bond indices), every pure PC-SAFT, SAFT-VR Mie and SAFT-VRQ Mie record (2180 records) is turned into a model whose critical point and saturation curve (8 reduced temperatures) are computed, and every gc substance is assembled from the segment tables. The harness fails as machinery error if a parameter file exists on disk for which it has no record type.",
+    text="The quantifier is a finite set and both tiers enumerate it completely: every JSON file is parsed with its model's record type and checked structurally (duplicate names / pairs, positivity, referential integrity, bond indices), every pure PC-SAFT, SAFT-VR Mie and SAFT-VRQ Mie record (2180 records) is turned into a model whose critical point and saturation curve (8 reduced temperatures) are computed, and every gc substance is assembled from the segment tables. The harness fails as machinery error if a parameter file exists on disk for which it has no record type. Every substance of gc_substances.json must assemble from every segment table exactly when the raw JSON says it can.",
     design_ref="§5 C15",
     note="Trusted base: serde record definitions are the schema; 'lookup identifier' = substance name (all documented lookups use IdentifierOption::Name; several files deliberately hold several parameterisations of one CAS number). Saturation curve sampled at the 8 reduced temperatures the property was calibrated on.",
 )
@@ -75,7 +75,7 @@ CLAIMED["C15"] = dict(
 CLAIMED["C14"] = dict(
     category="exploration",
     technique="exhaustive enumeration of ordered query subsets x identifier kinds x file orders x binary orientations; all segment orders of chemical records; reference re-implementation and differential oracles",
-    text="For the small parameter files every ordered query subset up to size 3-4, every identifier kind the records carry, three file orders and four variants of the binary file (original, every record's identifiers swapped, reversed, absent) are pushed through from_json / from_multiple_json and compared with the raw records; duplicates and missing names must be rejected; every gc substance is compared with a reference implementation of the combining rules and rebuilt in every order of its segment list (bonds relabelled) for homo- and heterosegmented models; every record of every pure file is serialised, re-read and compared bit-for-bit in behaviour.",
+    text="For the small parameter files every ordered query subset up to size 3-4, every identifier kind the records carry, three file orders and four variants of the binary file (original, every record's identifiers swapped, reversed, absent) are pushed through from_json / from_multiple_json and compared with the raw records; duplicates and missing names must be rejected; every gc substance is compared with a reference implementation of the combining rules and rebuilt in every order of its segment list (bonds relabelled) for homo- and heterosegmented models; every record of every pure file is serialised, re-read and compared bit-for-bit in behaviour. Group-contribution assembly must succeed exactly when the raw JSON says it can (all groups present, at most one polar/associating group); both heterosegmented builders keep the query order.",
     design_ref="§5 C14",
 )
 
@@ -83,7 +83,7 @@ CLAIMED["C04"] = dict(
     category="fault_enumeration",
     engine="deviation",
     technique="exhaustive enumeration of every shipped pure record x reduced-temperature lattice, plus deviation-bounded exploration of the initialisation cascade through injected stage failures",
-    text="Every pure record of the shipped PC-SAFT, SAFT-VR Mie and SAFT-VRQ Mie files is solved on the reduced-temperature lattice (success clause), the equilibrium conditions are recomputed outside the solver, pure(T) and pure(p) are composed, the helper entry points are compared, and with an initial state supplied every prefix of the fallback cascade (given state, ideal gas) is forced to fail through the H3 injection sites so that the later stages really run; phase diagrams are checked for completeness, monotonicity and the critical end point. Solver failures on the pinned tree are listed per (record, T_r window) in known_findings.txt.",
+    text="Every pure record of the shipped PC-SAFT, SAFT-VR Mie and SAFT-VRQ Mie files is solved on the reduced-temperature lattice (success clause), the equilibrium conditions are recomputed outside the solver, pure(T) and pure(p) are composed, the helper entry points are compared, and with an initial state supplied every prefix of the fallback cascade (given state, ideal gas) is forced to fail through the H3 injection sites so that the later stages really run; phase diagrams are checked for completeness, monotonicity and the critical end point. Solver failures on the pinned tree are listed per (record, T_r window) in known_findings.txt. pure(p) must succeed at every p = p_sat(T) returned by pure(T) (the 259 failures of the pinned tree are listed findings).",
     design_ref="§5 C04, §4.3",
 )
 
@@ -91,14 +91,14 @@ CLAIMED["C03"] = dict(
     category="fault_enumeration",
     engine="deviation",
     technique="exhaustive enumeration of all constructor input subsets x poisoned values against a reference decision table; (T, p, hint, initial density) lattice; injected failures of the two shadowed density iterations",
-    text="All 2^8 / 2^11 subsets of the optional constructor inputs for one and two components, each with every poisoned value in every present input, are compared with a decision table written from the documented hierarchy (outcome class, echo of every given quantity, iterative targets); the Gross-Sadowski records are swept over the (T_r, p_r) lattice with every density initialisation (success clause, pressure reproduced, stable root by Gibbs energy, requested branch when an independent root scan shows both exist), the two density iterations of the no-hint path are forced to fail in all combinations, and the Newton constructors are asked for the specification of reachable states.",
+    text="All 2^8 / 2^11 subsets of the optional constructor inputs for one and two components, each with every poisoned value in every present input, are compared with a decision table written from the documented hierarchy (outcome class, echo of every given quantity, iterative targets); the Gross-Sadowski records are swept over the (T_r, p_r) lattice with every density initialisation (success clause, pressure reproduced, stable root by Gibbs energy, requested branch when an independent root scan shows both exist), the two density iterations of the no-hint path are forced to fail in all combinations, and the Newton constructors are asked for the specification of reachable states. The (T, p) lattice has an extra band of reduced temperatures just below T_c (positive liquid spinodal pressure).",
     design_ref="§5 C03, §4.3",
 )
 
 CLAIMED["C05"] = dict(
     category="exploration",
     technique="bounded-exhaustive enumeration of all hydrocarbon record pairs x (T, x, pressure fraction) lattice x {bubble, dew at T and p, flash, diagrams}; equilibrium conditions recomputed outside the solvers",
-    text="All unordered pairs of the 51 shipped PC-SAFT hydrocarbon records with T_c ratio < 1.8 are solved on the (T, x) lattice for bubble and dew points at given T and p and for flashes strictly inside the envelope (success clause for ratio < 1.5), plus binary_vle / bubble- and dew-point lines, other model families, a ternary, LLE and the heteroazeotrope; for every returned result common T and p, equality of x_i phi_i, distinctness of the phases, exact echo of the specification, p_bub >= p_dew and the material balance are recomputed. Flash failures on the pinned tree are listed per (pair, T, x, pressure fraction).",
+    text="All unordered pairs of the 51 shipped PC-SAFT hydrocarbon records with T_c ratio < 1.8 are solved on the (T, x) lattice for bubble and dew points at given T and p and for flashes strictly inside the envelope (success clause for ratio < 1.5), plus binary_vle / bubble- and dew-point lines, other model families, a ternary, LLE and the heteroazeotrope; for every returned result common T and p, equality of x_i phi_i, distinctness of the phases, exact echo of the specification, p_bub >= p_dew and the material balance are recomputed. Flash failures on the pinned tree are listed per (pair, T, x, pressure fraction). Every interior flash is also warm-started from that equilibrium at four neighbouring (T, p) through both entry points; bubble and dew points are re-solved with four non-default (inner, outer) option pairs and compared with the default answer; the isobaric LLE diagram must lie on its temperature grid.",
     design_ref="§5 C05",
 )
 
@@ -120,7 +120,7 @@ CLAIMED["C12"] = dict(
     category="fault_enumeration",
     engine="deviation",
     technique="deviation-bounded exploration: every non-empty subset of a phase diagram's solver calls forced to fail through injection hooks (2^(n-1)-1 histories per diagram), plus an exhaustive guess lattice; differential oracle against the stand-alone solve",
-    text="Pure diagrams (4, 6, 9 points) and binary_vle / bubble- / dew-point lines (5-8 points) are re-run with every non-empty subset of their solver calls forced to fail by the H3 hooks: exactly the forced points must go missing and every surviving point must equal the undisturbed point, which in turn must equal the stand-alone solve without guess; nested numbers of points must share points; pure, bubble/dew and flash calculations are repeated over a lattice of pressure / temperature / composition guesses within a factor 3 and with cascade stages forced to fail, and compared with the result obtained without guess.",
+    text="Pure diagrams (4, 6, 9 points) and binary_vle / bubble- / dew-point lines (5-8 points) are re-run with every non-empty subset of their solver calls forced to fail by the H3 hooks: exactly the forced points must go missing and every surviving point must equal the undisturbed point, which in turn must equal the stand-alone solve without guess; nested numbers of points must share points; pure, bubble/dew and flash calculations are repeated over a lattice of pressure / temperature / composition guesses within a factor 3 and with cascade stages forced to fail, and compared with the result obtained without guess. Pure-component guesses include states AT the requested temperature that are not the solution (two phases at 0.8/0.95/1.05 p_sat, coarse-tolerance solutions).",
     design_ref="§5 C12, §4.3",
 )
 
@@ -134,7 +134,7 @@ CLAIMED["C16"] = dict(
 CLAIMED["C17"] = dict(
     category="exploration",
     technique="bounded-exhaustive enumeration of functionals x grids x base profiles x every basis perturbation (segment x bump centre); finite-difference and adjointness oracles on the discretised functional",
-    text="For every functional family, grid type, base profile and every perturbation of the basis (each segment x each Gaussian bump centre of a sub-grid away from the boundary) the Richardson difference of the integrated Helmholtz energy density is compared with the integral of the functional derivative times the perturbation, the adjointness of the weighted-density and functional-derivative convolutions is evaluated without any finite difference through first_partial_derivatives, and the Newton operator (hook H4) applied to the perturbation, including the variation of the bond integrals of chain molecules, is compared with the Richardson difference of the functional derivative itself. Cartesian and periodic grids: 1e-9; curvilinear grids: bands at 10x the intrinsic accuracy of the transforms observed on the pinned tree.",
+    text="For every functional family, grid type, base profile and every perturbation of the basis (each segment x each Gaussian bump centre of a sub-grid away from the boundary) the Richardson difference of the integrated Helmholtz energy density is compared with the integral of the functional derivative times the perturbation, the adjointness of the weighted-density and functional-derivative convolutions is evaluated without any finite difference through first_partial_derivatives, and the Newton operator (hook H4) applied to the perturbation, including the variation of the bond integrals of chain molecules, is compared with the Richardson difference of the functional derivative itself. Cartesian and periodic grids: 1e-9; curvilinear grids: bands at 10x the intrinsic accuracy of the transforms observed on the pinned tree. Periodic 2-D and 3-D grids (with a periodic slab profile) are part of the lattice.",
     design_ref="§5 C17",
     note="Trusted base as for the lattice checks. Curvilinear grids (spherical, polar, cylindrical) are only adjoint up to the intrinsic accuracy of their transforms (spherical 4e-7..1e-4, polar up to 1.5e-3), which does not vanish under refinement; the acceptance band there (2e-5..1.2e-3 and 2e-2) is calibrated on the pinned tree and only catches O(1) errors such as a wrong sign, index or partial derivative. Only profiles that are flat at the outer boundary are used on those grids.",
 )
@@ -142,14 +142,14 @@ CLAIMED["C17"] = dict(
 CLAIMED["C18"] = dict(
     category="exploration",
     technique="exhaustive enumeration of all solver chains up to depth 3 over a 6-letter alphabet x tolerances x initial profiles x specifications x systems; stationarity recomputed, observables compared across all chains",
-    text="Every sequence of up to three solver stages over {picard, picard-log, anderson, anderson-log, newton, newton-log} (6 + 36 + 216 chains) is run with two final tolerances on planar interfaces and slit / cylindrical / spherical pores from tanh, pDGT and previous-solution starts; whenever solve reports success the Euler-Lagrange residual is recomputed, positivity and the solver log are checked, the bulk state must be unchanged for the default specification, the path-independent observables (surface tension, adsorbed amount, grand potential) must agree across all successful chains, and specified particle numbers must be reproduced.",
+    text="Every sequence of up to three solver stages over {picard, picard-log, anderson, anderson-log, newton, newton-log} (6 + 36 + 216 chains) is run with two final tolerances on planar interfaces and slit / cylindrical / spherical pores from tanh, pDGT and previous-solution starts; whenever solve reports success the Euler-Lagrange residual is recomputed, positivity and the solver log are checked, the bulk state must be unchanged for the default specification, the path-independent observables (surface tension, adsorbed amount, grand potential) must agree across all successful chains, and specified particle numbers must be reproduced. 18 two-stage chains whose tight last stage is cut off after 3 iterations are enumerated in both tiers; Moles and TotalMoles specifications at N0 and 1.1 N0 are solved for a binary mixture and a heterosegmented molecule in a slit pore.",
     design_ref="§5 C18",
 )
 
 CLAIMED["C19"] = dict(
     category="exploration",
     technique="bounded-exhaustive enumeration of functionals x pore geometries x sizes x solid potentials x temperatures x pressures x compositions x grids; every reported derivative is compared with Richardson differences of re-solved neighbouring profiles along every bulk direction (p, x, T)",
-    text="For every pore of the lattice (5 functionals incl. a binary mixture at two compositions x slit/cylinder/sphere x 3 sizes x LJ93/Steele/hard wall/SimpleLJ93 x 3 reduced temperatures x 2 vapour pressures x 2 grids) the profile is re-solved at p +- h, +- 2h, x +- h, +- 2h and T +- dT, +- 2dT and the Richardson differences are compared with what the solved profile reports: dOmega = -sum_i N_i dmu_i along every direction (Gibbs adsorption), dN_i = sum_k dn_dmu[k,i] dmu_k, dn_dp, dn_dt, the linear system and mole-fraction average behind the (partial molar) enthalpy of adsorption, N_i/(x_i p) at 1e-4 p against the Henry coefficients and the temperature derivative of ln(K_H T) against the ideal-gas enthalpy of adsorption. Planar interfaces: 5 functionals x 6 reduced temperatures x 4 box lengths x 3 grid sizes: surface tension independent of box and grid up to a second-order discretisation band, strictly decreasing with T, below 20 % of its 0.95 Tc value at 0.99 Tc, pDGT within 10 %.",
+    text="For every pore of the lattice (5 functionals incl. a binary mixture at two compositions x slit/cylinder/sphere x 3 sizes x LJ93/Steele/hard wall/SimpleLJ93 x 3 reduced temperatures x 2 vapour pressures x 2 grids) the profile is re-solved at p +- h, +- 2h, x +- h, +- 2h and T +- dT, +- 2dT and the Richardson differences are compared with what the solved profile reports: dOmega = -sum_i N_i dmu_i along every direction (Gibbs adsorption), dN_i = sum_k dn_dmu[k,i] dmu_k, dn_dp, dn_dt, the linear system and mole-fraction average behind the (partial molar) enthalpy of adsorption, N_i/(x_i p) at 1e-4 p against the Henry coefficients and the temperature derivative of ln(K_H T) against the ideal-gas enthalpy of adsorption. Planar interfaces: 5 functionals x 6 reduced temperatures x 4 box lengths x 3 grid sizes: surface tension independent of box and grid up to a second-order discretisation band, strictly decreasing with T, below 20 % of its 0.95 Tc value at 0.99 Tc, pDGT within 10 %. The quick tier contains a heterosegmented functional (gc-PC-SAFT hexane) in all three geometries.",
     design_ref="§5 C19",
 )
 
